@@ -203,6 +203,22 @@ Proof.
   - eexists. split; [vm_compute; reflexivity | vm_compute; reflexivity].
 Qed.
 
+(** fix 53ade46: the parser accepts a parenthesised string literal where a string is expected; the analyser now looks the
+    literal up through the parentheses ([lit_val]) as the engine does.  [count_values(("cv"), foo)] and
+    [label_replace(foo, ("d"), "x", "b", "(.*)")] are inside [wf]; their branches can have the label. *)
+Definition ex_cv_paren : expr := EAgg ACountValues false [] (Some (EParen (EStr "cv"))) ex_foo.
+Definition ex_lr_paren : expr :=
+  ECall "label_replace" [VVector; VString; VString; VString; VString]
+        [ex_foo; EParen (EStr "d"); EStr "x"; EStr "b"; EStr "(.*)"].
+
+Example C04_paren_string_args :
+  wf ex_cv_paren = true /\ wf ex_lr_paren = true /\
+  (forall s, In s (walk_node (fun _ _ => nan) (fun _ _ => nan) ex_cv_paren) -> can_have_label s "cv" = true) /\
+  (forall s, In s (walk_node (fun _ _ => nan) (fun _ _ => nan) ex_lr_paren) -> can_have_label s "d" = true).
+Proof.
+  split; [reflexivity|]. split; [reflexivity|]. split; intros s Hin; vm_compute in Hin; destruct Hin as [<-|[]]; reflexivity.
+Qed.
+
 (** * The property as ONE theorem, clause by clause
 
     "A 'template uses non-existent label' report is never a false positive":
